@@ -24,9 +24,9 @@ def _setup(tier, seed):
 
 
 def base_train(n, fam):
-    """irregular spacings in [0.5, 10] s from a small LCG (deterministic, no two spacings equal); family >= 10: spacings in [5, 10] s"""
+    """irregular spacings in [0.5, 10] s from a small LCG (deterministic, no two spacings equal); family >= 10: spacings in [5, 10] s, family >= 20: in [9, 10] s"""
     x = 12345 + 7919 * fam + 104729 * SEED[0]
-    lo, span = (0.5, 9.5) if fam < 10 else (5.0, 5.0)
+    lo, span = (0.5, 9.5) if fam < 10 else ((5.0, 5.0) if fam < 20 else (9.0, 1.0))
     sp = []
     for _ in range(n):
         x = (1103515245 * x + 12345) % (2 ** 31)
@@ -63,15 +63,21 @@ def cases_two(tier, seed):
     return out
 
 
-def run_one(n, fam, miss_a, miss_b, drift, offset, jit, linear):
-    """returns a list of (key, message)"""
+def run_one(n, fam, miss_a, miss_b, drift, offset, jit, linear, close=None):
+    """returns a list of (key, message); close = k: events k-1 and k are only 0.5 s apart and carry opposite extreme jitter (+0.1 / -0.1 ms)"""
     ta = base_train(n, fam)
+    if close is not None:
+        gaps = np.diff(np.r_[3.14159, ta])
+        gaps[close] = 0.5
+        ta = np.cumsum(gaps) + 3.14159
     true_b = ta * (1 + drift * 1e-6) + offset
     # fixed jitter pattern of +-0.1 ms (deterministic)
     if jit:
         j = 1e-4 * np.array([((i * 2654435761) % 1000) / 500.0 - 1 for i in range(n)])
     else:
         j = np.zeros(n)
+    if close is not None:
+        j[close - 1], j[close] = 1e-4, -1e-4
     tb_full = true_b + j
     keep_a = np.array([i for i in range(n) if i not in miss_a])
     keep_b = np.array([i for i in range(n) if i not in miss_b])
@@ -176,6 +182,25 @@ def check_long(case):
     return Res(list(seen.items()), o=(ma < 0,), tr=ntr)
 
 
+def cases_close(tier, seed):
+    """worst-case jitter: a pair of events 0.5 s apart with opposite extreme jitter, at every position of a long drifting train (linear mode fits a line: it must not care)"""
+    # spacings 9-10 s: 300 events last 2850 s, so that at 100 ppm about 45 events on either side are left to the second assignment pass
+    return [("close", 300, 20, k) for k in range(2, 298)]
+
+
+def check_close(case):
+    _, n, fam, k = case
+    seen = {}
+    ntr = 0
+    for drift in (100.0, -100.0):
+        for miss_a, miss_b in ((set(), set()), ({120, 151, 200}, {133, 151, 170})):
+            for key, m in run_one(n, fam, miss_a, miss_b, drift, -83.7, 1, True, close=k):
+                seen.setdefault(key + ":close-pair", "n=%d (spacings 9-10 s), events %d and %d only 0.5 s apart with jitter +0.1 / -0.1 ms, missing a=%r b=%r, drift=%r, linear=True: %s"
+                                % (n, k - 1, k, sorted(miss_a), sorted(miss_b), drift, m))
+            ntr += 1
+    return Res(list(seen.items()), o=(k < 100, k > 200), tr=ntr)
+
+
 def cases_keep(tier, seed):
     return [(linear, k) for linear in (False, True) for k in range(4)]
 
@@ -221,6 +246,8 @@ CHECK = {
         Clause("missing<=1+1", "every placement of <= 1 missing event on each side", cases=cases_one, check=check_one, setup=_setup),
         Clause("missing<=2", "every placement of 2 missing events on one side x {0,1} on the other", cases=cases_two, check=check_two, setup=_setup),
         Clause("kept-maps", "maps returned by earlier calls stay valid after later calls", cases=cases_keep, check=check_keep, setup=_setup),
+        Clause("close-pair", "linear mode on a 300-event train at +-100 ppm with a close pair of events carrying opposite extreme jitter at every position (the straight-line fit must not amplify it)",
+               cases=cases_close, check=check_close, setup=_setup),
         Clause("long-trains", "300 events over > 2000 s at +-100 ppm: placements of one missing event per side on a stride", cases=cases_long, check=check_long, setup=_setup),
         _layouts.make_clause(__import__("checks._layout_specs", fromlist=["x"]).c19()),
     ],
